@@ -167,7 +167,7 @@ func (s *session) thread(t int) {
 	s.events <- event{t: t, kind: 'e'}
 }
 
-const watchdog = 20 * time.Second
+const watchdog = 10 * time.Second
 
 var errHang = fmt.Errorf("hang")
 
@@ -256,6 +256,38 @@ stepLoop:
 		s.mu.Lock()
 		s.running = st.T
 		s.mu.Unlock()
+		if st.Kind == 'p' {
+			// probe: the model says thread T is blocked in this state; let it go and see that nothing completes
+			probe := settle
+			if probe <= 0 {
+				probe = 300 * time.Microsecond
+			}
+			s.grant[st.T] <- struct{}{}
+			tm.Reset(probe)
+		probeLoop:
+			for {
+				select {
+				case ev := <-s.events:
+					if ev.kind == 'e' {
+						finished[ev.t] = true
+						exited++
+						continue
+					}
+					if !tm.Stop() {
+						<-tm.C
+					}
+					if ev.kind == 'd' {
+						record(ev)
+					}
+					fail("mis", "", "step %d (p%d): model says the thread is blocked here, implementation went on (%c %q %s)", i, st.T, ev.op, ev.res, ev.point)
+					break probeLoop
+				case <-tm.C:
+					out.blockedChecked++
+					break probeLoop
+				}
+			}
+			break stepLoop
+		}
 		want := 1
 		if st.Kind == 'h' {
 			// rendezvous: let the receiver reach `<-channel` first, then the sender's select
